@@ -4,11 +4,13 @@ EXTENDS PluginSource, TLC, Json
 CONSTANTS Names, RefSegs, MaxSegs, MaxRef, DoExport
 VARIABLES c
 SeqsBetween(S, lo, hi) == UNION {[1..k -> S] : k \in lo..hi}
-Init == \E p \in Prefixes : \E sg \in SeqsBetween(Names, 1, MaxSegs) : \E r \in SeqsBetween(RefSegs, 0, MaxRef) :
-            c = [prefix |-> p, segs |-> sg, ref |-> r]
+\* (a trailing separator only where the source is left as written: behind a leading form, or after three or more segments)
+Init == \E p \in Prefixes : \E sg \in SeqsBetween(Names, 1, MaxSegs) : \E r \in SeqsBetween(RefSegs, 0, MaxRef) : \E tr \in BOOLEAN :
+            /\ tr => (p # "none" \/ Len(sg) >= 3)
+            /\ c = [prefix |-> p, segs |-> sg, ref |-> r, trail |-> tr]
 Next == FALSE /\ c' = c
 Spec == Init /\ [][Next]_c
 InvImplEqualsRule == CanonImpl(c) = Canon(c)
 InvIdempotent == Canon(CanonTokens(c)) = Canon(c) /\ Spell(CanonTokens(c)) = Canon(c)
-Export == DoExport => PrintT("CASE " \o ToJson([prefix |-> c.prefix, segs |-> c.segs, ref |-> c.ref, spelled |-> Spell(c)]))
+Export == DoExport => PrintT("CASE " \o ToJson([prefix |-> c.prefix, segs |-> c.segs, ref |-> c.ref, trail |-> c.trail, spelled |-> Spell(c)]))
 =============================================================================
